@@ -474,15 +474,43 @@ def _designates(src, rng, name):
     return rest.startswith("=") and not rest.startswith("=="), text
 
 
-def _tree_problems(src):
-    """whole-tree gate: every leaf that carries a position designates exactly its own spelling, and every parent's range
-    covers the ranges of all its children (after UpdateLocations)"""
-    from nsl import parser, ast
-    from nsl.passes import UpdateLocations
+def _pipeline_tree(src, compiler=None):
+    """the AST as the compiler sees it when diagnostics are produced: parsed by the compiler's own parser and run through its own
+    AST passes, in its order, up to and including update-locations (earlier passes may already have looked at positions)"""
+    from nsl import Compiler
+    c = compiler or Compiler.Compiler()
     with contextlib.redirect_stdout(io.StringIO()), contextlib.redirect_stderr(io.StringIO()):
-        tree = parser.NslParser().Parse(src)
-        UpdateLocations.GetPass().Process(tree, output=io.StringIO())
+        try:
+            tree = c.parser.Parse(src)
+        except SystemExit:
+            return None
+        for p in c.astPasses:
+            p.Process(tree, output=io.StringIO())
+            if p.Name == "update-locations":
+                break
+    return tree
+
+
+def _tree_problems(src, compiler=None):
+    """whole-tree gate: every leaf that carries a position designates exactly its own spelling, every parent's range covers the
+    ranges of all its children, and the text a position renders to is the textbook rendering of its offsets"""
+    from nsl import ast
+    tree = _pipeline_tree(src, compiler)
+    if tree is None:
+        return []
     probs = []
+    lines = src.split("\n")
+    starts = [0]
+    for l in lines[:-1]:
+        starts.append(starts[-1] + len(l) + 1)
+
+    def render(b, e):
+        """textbook rendering of [b, e): 1-based line:column of b, exclusive end"""
+        import bisect
+        lb, le = bisect.bisect_right(starts, b) - 1, bisect.bisect_right(starts, e) - 1
+        if lb == le:
+            return f"{lb + 1}:{b - starts[lb] + 1}-{e - starts[lb] + 1}"
+        return f"{lb + 1}:{b - starts[lb] + 1}-{le + 1}:{e - starts[le] + 1}"
 
     def span(n):
         loc = n.GetLocation() if hasattr(n, "GetLocation") else None
@@ -496,6 +524,9 @@ def _tree_problems(src):
         n.ForEachChild(lambda c, ctx=None: kids.append(c))
         if sp is not None:
             text = src[sp[0]:sp[1]]
+            shown = str(n.GetLocation())
+            if shown != render(sp[0], sp[1]):
+                probs.append(f"{type(n).__name__} at offsets [{sp[0]},{sp[1]}) is reported as {shown!r}, which should read {render(sp[0], sp[1])!r}")
             if isinstance(n, ast.PrimaryExpression) and text != n.GetName():
                 probs.append(f"identifier {n.GetName()!r} reported at [{sp[0]},{sp[1]}) = {text!r}")
             if isinstance(n, ast.LiteralExpression):
@@ -545,6 +576,25 @@ def _layouts(inst):
         b = _check_layout(src, name, diag)
         if b:
             bad.append((kind, b))
+    # one compiler object for a series of texts (a tool that keeps its Compiler): positions must come from the text at hand.
+    # The functions are not exported and carry distinct names and no globals, which is what the compiler allows across calls.
+    from nsl import Compiler
+    shared = Compiler.Compiler()
+    k = 0
+    for src, name, kind, diag in _layout_programs():
+        if "export function f(" not in src or src.lstrip().startswith("int ") or kind in ("global/local",):
+            continue
+        k += 1
+        if k % 3:
+            continue
+        src2 = src.replace("export function f(", f"function fn{k}(")
+        res["paths"] += 1
+        try:
+            tp = _tree_problems(src2, shared)
+        except Exception as e:  # noqa: BLE001
+            tp = []
+        if tp:
+            bad.append(("shared-compiler", dict(source=src2, name=name, tree=tp[:3], note="same Compiler object used for earlier texts")))
     seen = set()
     for kind, b in bad:
         if kind in seen:
